@@ -8,6 +8,8 @@
 //	addr <hex21> <chk4>         Uint168.ToAddress then Uint168FromAddress     → <address> ok <hex21> | <address> err <class>
 //	fromaddr <hex of string> <chk4|->   Uint168FromAddress                    → ok <hex21> | err len|char|verify | panic
 //	wks <priv> <seed>           keystore round trip: CreateFromAccount → Open → Client.Sign → RunPrograms (see execWks)
+//	wtx …                       txsig format: a transaction spending several accounts of one wallet, signed by Client.Sign,
+//	                            through the real checkTransactionSignature (pairing by sorted code hash)
 //	wrun … / wtamper …          `run` format (run.go): a transaction signed by the wallet code
 //	                            (account.SignStandardTransaction / SignMultiSignTransaction /
 //	                            crypto.AggregateSignatures on a Schnorr aggregate account) checked by
@@ -111,6 +113,8 @@ func exec(t []string) string {
 		return execRun(t)
 	case "wks":
 		return execWks(t)
+	case "wtx": // txsig format (harness/runop/txsig.go): a multi-account wallet-signed transaction through checkTransactionSignature
+		return execTxsig(t)
 	case "wcan": // wcan <m> <n>: can the wallet's own code sign for the m-of-n account it creates?
 		m, n := atoi(t[1]), atoi(t[2])
 		var pubs []*crypto.PublicKey
@@ -178,6 +182,11 @@ func oracle(t []string, out string) *hx.Violation {
 		if strings.HasPrefix(out, "cannot-sign") {
 			return &hx.Violation{Kind: "wallet-account-unsignable",
 				Detail: "the wallet creates an m-of-n account (address) whose script its own signing code and the node's verifier reject: " + out}
+		}
+	case "wtx":
+		if out != "ok" {
+			return &hx.Violation{Kind: "wallet-rejected-tx",
+				Detail: "a transaction spending several wallet accounts, signed by Client.Sign, does not pass checkTransactionSignature: " + out}
 		}
 	case "wks":
 		if !strings.HasSuffix(out, " ok") {
@@ -612,8 +621,71 @@ func genKeystore(g *hx.Gen) {
 	}
 }
 
+// a wallet (keystore client) holding several accounts signs a transaction that spends from 2..5 of them
+// (standard accounts and m-of-n accounts whose members are all in the wallet); the node side is the real
+// checkTransactionSignature (hash de-duplication, sorting of hashes and of programs, RunPrograms).
+func genWalletTx(g *hx.Gen) {
+	r := g.R
+	dir, err := os.MkdirTemp("", "c37-wallet")
+	if err != nil {
+		panic("harness: tempdir")
+	}
+	defer os.RemoveAll(dir)
+	for i := 0; i < g.N(60, 600); i++ {
+		nStd := 2 + r.Intn(4)
+		var members []*account.Account
+		for k := 0; k < nStd+2; k++ {
+			members = append(members, newAccount(r))
+		}
+		cl, err := account.CreateFromAccount(filepath.Join(dir, fmt.Sprintf("w%d.dat", i)), []byte("pw"), members[0])
+		if err != nil {
+			panic("harness: create wallet")
+		}
+		for _, a := range members[1:] {
+			if err := cl.SaveAccount(a); err != nil {
+				panic("harness: save account")
+			}
+		}
+		o := &txOp{Variant: "tx", Ttype: byte(ctypes.TransferAsset), Pver: 0, Lock: uint32(r.Intn(1000))}
+		var progs []progIn
+		for _, a := range members[:nStd] {
+			o.Refs = append(o.Refs, hashIn{Pfx: a.ProgramHash[0], Hash: common.ToCodeHash(a.RedeemScript).Bytes()})
+			if r.Chance(30) {
+				o.Refs = append(o.Refs, o.Refs[len(o.Refs)-1])
+			}
+			progs = append(progs, progIn{Code: a.RedeemScript})
+		}
+		if r.Chance(40) { // plus a 1-of-2 multi-sig account of two wallet members (Client.Sign adds one signature per call)
+			ms, err := account.NewMultiSigAccount(1, []*crypto.PublicKey{members[nStd].PublicKey, members[nStd+1].PublicKey})
+			if err == nil && ms.RedeemScript != nil {
+				o.Refs = append(o.Refs, hashIn{Pfx: ms.ProgramHash[0], Hash: common.ToCodeHash(ms.RedeemScript).Bytes()})
+				progs = append(progs, progIn{Code: ms.RedeemScript})
+			}
+		}
+		o.Attrs = append(o.Attrs, attrIn{Usage: byte(ctypes.Nonce), Data: r.Bytes(8)})
+		for k := len(progs) - 1; k > 0; k-- {
+			j := r.Intn(k + 1)
+			progs[k], progs[j] = progs[j], progs[k]
+		}
+		tx, _, ok := buildTx(o, progs)
+		if !ok {
+			panic("harness: buildTx")
+		}
+		signed, err := cl.Sign(tx)
+		if err != nil {
+			panic("harness: Client.Sign: " + err.Error())
+		}
+		var sp []progIn
+		for _, p := range signed.Programs() {
+			sp = append(sp, progIn{Code: p.Code, Param: p.Parameter})
+		}
+		g.Emit("wtx%s", txsigLine(o, sp)[5:])
+	}
+}
+
 func gen(g *hx.Gen) {
 	mrand.Seed(int64(g.Seed))
+	genWalletTx(g)
 	genKeystore(g)
 	genCan(g)
 	genAmounts(g)
